@@ -443,6 +443,8 @@ func runOwnership(id string, parts []string) string {
 			err = c20Handover(f["sched"], rng, &o)
 		case "emptyresp":
 			err = c20EmptyResp(f["sched"], rng, &o)
+		case "prefetch":
+			err = c20Prefetch(f["sched"], rng, &o)
 		default:
 			return "HARNESS-ERROR unknown scenario"
 		}
